@@ -640,6 +640,9 @@ def rule_T8(ctx, rule: str = "T8") -> None:
     m = model(ctx)
     mod = m.mod
     n = 0
+    from .c09 import shared_chunk_generator
+    gen = shared_chunk_generator(mod)
+    writers = {"self.dump", "self.__bytes__", "self.SerializeToString"} | ({f"self.{gen}"} if gen else set())
     for q in ("Message.__bytes__", "Message.SerializeToString"):
         if not mod.has(q):
             continue
@@ -653,8 +656,8 @@ def rule_T8(ctx, rule: str = "T8") -> None:
             if p.outcome != "return":
                 continue
             rets += 1
-            wrote = any(e.kind == "call" and (dotted(e.data[1]) in ("self.dump", "self.__bytes__", "self.SerializeToString") or (dotted(e.data[1]) == "bytes" and e.data[2] == (N("self"),))) for e in p.events) or (
-                p.value is not None and any(t[0] == "call" and (dotted(t[1]) in ("self.dump", "self.__bytes__", "self.SerializeToString") or (dotted(t[1]) == "bytes" and t[2] == (N("self"),))) for t in _walk(p.value)))
+            wrote = any(e.kind == "call" and (dotted(e.data[1]) in writers or (dotted(e.data[1]) == "bytes" and e.data[2] == (N("self"),))) for e in p.events) or (
+                p.value is not None and any(t[0] == "call" and (dotted(t[1]) in writers or (dotted(t[1]) == "bytes" and t[2] == (N("self"),))) for t in _walk(p.value)))
             if not wrote:
                 bad = bad or p
         name = f"{q.split('.')[-1]}:encodes-current-state"
